@@ -410,7 +410,7 @@ Proof.
   assert (I3 : Inv (upd_top c2 (fun f => set_exit f (Some b')))) by auto with inv.
   destruct br.
   - inversion H; subst; auto.
-  - eapply IH; eauto. auto with inv.
+  - destruct (top_code_empty _); [inversion H; subst; split; auto with inv|eapply IH; eauto; auto with inv].
   - inversion H; subst. split; auto with inv.
   - eapply IH; eauto. auto with inv.
   - inversion H; subst; auto.
@@ -456,7 +456,7 @@ Proof.
   - destruct (on_error (upd_cur r1 c1)) as [[rec r2]| | |] eqn:E2; try discriminate.
     assert (R2 : RInv r2) by (eapply on_error_inv; eauto with inv).
     destruct rec; inversion H; subst; exact R2.
-  - destruct fr; [destruct (Nat.eqb (length (c_frames c1)) (length (f0 :: fs0)))|].
+  - destruct fr; [destruct (Nat.eqb (length (c_frames c1)) (length (f0 :: fs0)))| |].
     + (* completion *)
       inversion H; subst. cbn [rt_of]. apply rinv_upd_cur; [exact R1|].
       destruct (pop_value c1) as [[v c2]|] eqn:P.
@@ -498,6 +498,12 @@ Proof.
            destruct (on_error (upd_cur r3 c5)) as [[rec r5]| | |] eqn:E4; try discriminate.
            assert (R5 : RInv r5) by (eapply on_error_inv; eauto with inv).
            destruct rec; inversion H; subst; exact R5.
+    + (* an empty scope restarted: deadline test only *)
+      match type of H with context [if ?b then _ else _] => destruct b eqn:EZ end.
+      * cbv beta iota zeta in H. inversion H; subst. cbn [rt_of]. auto with inv.
+      * unfold now in H. cbv beta iota zeta in H.
+        match type of H with context [if ?b then _ else _] => destruct b eqn:EX end;
+          inversion H; subst; cbn [rt_of]; auto 10 with inv.
 Qed.
 
 (* ---------------------------------------------------------------- execute_do, the scheduler, actions *)
@@ -534,7 +540,10 @@ Proof.
     - unfold now in ES. cbv beta iota zeta in ES.
       match type of ES with context [if ?b then _ else _] => destruct b end.
       + eapply execute_do_inv; [exact ES|]. auto with inv.
-      + inversion ES; subst. auto with inv.
+      + match type of ES with context [if Z.eqb ?a ?b then _ else _] => destruct (Z.eqb a b) end.
+        * cbv beta iota zeta in ES. inversion ES; subst. auto with inv.
+        * unfold now in ES. cbv beta iota zeta in ES.
+          match type of ES with context [if ?b then _ else _] => destruct b end; inversion ES; subst; auto 10 with inv.
     - eapply execute_do_inv; eauto. }
   destruct (r_exit_req r2); [inversion H; subst; apply rinv_set_state, rinv_set_ctxs; constructor|].
   destruct x1; try (inversion H; subst; exact R2).
